@@ -76,3 +76,33 @@ package httpd
 //@       && (creds.Method == UserAuthentication ==> callresult(Authenticate, 1) == nil && creds.Username != "")
 //@       && (creds.Method == BearerAuthentication ==> callresult(User, 1) == nil)
 //@       && (creds.Method == SubscriptionAuthentication ==> callresult(SubscriptionUser, 1) == nil)
+
+// ---------------------------------------------------------------- serveWriteLine (C20, C02)
+// "an authenticated non-admin user gets exactly the actions its grants allow": points are written
+// only after the user was authorised for WRITE on the database resource of THE database name that
+// is then written to (not a cleaned, trimmed or otherwise different spelling of it).
+//@ func =(net/url.Values).Get
+//@   trusted
+//@   pure
+//@ func =(*net/url.URL).Query
+//@   trusted
+//@   modifies nothing
+//@ func =github.com/influxdata/influxdb/models.ParsePointsWithPrecision
+//@   trusted
+//@   modifies nothing
+//@ func (*Handler).writeError
+//@   trusted
+//@   modifies nothing
+//@ func =(net/http.ResponseWriter).WriteHeader
+//@   trusted
+//@   modifies nothing
+//@ func =github.com/influxdata/kapacitor/influxdb.IsClientError
+//@   trusted
+//@   pure
+//@ func (*Handler).serveWriteLine
+//@   props C20
+//@   requires h != nil && r != nil && r.URL != nil && w != nil && h.PointsWriter != nil && h.statMap != nil
+//@   requires forall k string :: has(user.privileges, k) ==> 0 <= user.privileges[k] && user.privileges[k] < 32
+//@   guardcall WritePoints#1: called(AuthorizeAction) && callresult(AuthorizeAction, 0) == nil
+//@       && callarg(AuthorizeAction, 0).Privilege == auth.WritePrivilege
+//@       && callarg(AuthorizeAction, 0).Resource == auth.DatabaseResource(arg0) && arg0 != ""
